@@ -165,10 +165,15 @@ int main(int argc, char** argv)
                 }
                 ser = tallies(*Ps);
             }
-            R.begin_case(root, 900);
+            // watchdog per execution (one schedule), not per root: a root with bound 2 and
+            // three threads is a long enumeration, a single schedule is milliseconds
             ExploreStats st;
             ExecResult er;
-            auto body = [&](Choices& c) { er = execute(v, cs, slots, c); };
+            auto body = [&](Choices& c) {
+                R.begin_case(root + "|" + choices_to_string(c.prefix()), 120);
+                er = execute(v, cs, slots, c);
+                R.end_case();
+            };
             auto on_exec = [&](Choices const& c) {
                 R.count("evaluations");
                 R.count("transitions", er.switches + 1);
@@ -228,7 +233,6 @@ int main(int argc, char** argv)
             else
                 explore(body, on_exec, bound, &st);
             R.count("roots");
-            R.end_case();
         }
     R.note("preemption_bound", std::to_string(bound));
     R.sample("sched:rec:T=2:assign=010|0.0.0.1 = two streams; events 0,2 on stream 0, event 1 on "
